@@ -71,6 +71,17 @@ class CollectionAttrMutator(metaclass=ABCMeta):
                     f"Cannot mutate attribute `{self.attr_spec.name}` of frozen spec class `{instance.__class__.__name__}`."
                 )
             collection = getattr(instance, self.attr_spec.name, MISSING)
+            if (
+                inplace
+                and collection is not MISSING
+                and getattr(instance, "__dict__", {}).get(self.attr_spec.name)
+                is not collection
+            ):
+                # The value is not the instance's own: it was derived by a
+                # descriptor (e.g. an alias mirroring another attribute) or is
+                # the class-level default. Mutating the instance in place must
+                # not reach through to that object.
+                inplace = False
         if collection is not MISSING and not inplace:
             collection = protect_via_deepcopy(collection)
         self.collection = collection
